@@ -7,6 +7,14 @@ import subprocess
 VERIF = os.path.dirname(os.path.dirname(os.path.abspath(__file__)))
 
 CHECKS = {
+ "C12": ("exploration", "§4 C12",
+         "Real LAMMPS / CP2K / GROMACS engine objects driven through EngineBase.propagate against simulated "
+         "external programs (virtual time, seeded chunked output incl. torn frames and several frames per "
+         "poll, late files, run over before the first poll, non-zero exits, files out of step, varying "
+         "boxes), with the oracle computed from the program's ground truth; TurtleMD, ASE and the plug-in "
+         "engine in-process with a file-based frame oracle and velocity-Verlet retrace.",
+         "external binaries simulated at file-format/process-API level; physics irrelevant to the property.",
+         "deterministic simulation: simulated external processes with seeded output timing and exit faults, ground-truth oracle"),
  "C13": ("exploration", "§4 C13",
          "Simulated MD writer appending a generated trajectory at byte granularity while the real on-the-fly "
          "reader (LAMMPS dump, CP2K xyz, GROMACS TRR via GromacsRunner with a simulated process and virtual "
@@ -80,8 +88,10 @@ CHECKS = {
          "deterministic simulation: seeded multi-worker schedules with crash/restart sequences, history-wide stream ledger"),
  "C17": ("exploration", "§4 C17",
          "(a) step arithmetic of the real scheduler over (workers, steps, restart point) incl. remaining < "
-         "workers, idle restarts, crashes; cstep on disk == completed moves, nothing left in flight.",
-         "part (b) (real aiorunner under a virtual-time event loop) is added by the same check once built.",
+         "workers, idle restarts, crashes; (b) exactly-once execution/delivery and clean shutdown of the "
+         "real aiorunner under seeded task durations, failures, bursts and stalls; (c) scheduler + runner "
+         "+ simulated executor in one process.",
+         "parts (b) real aiorunner/future_list under a virtual-time event loop and (c) full stack are interleaved in the same check; statement-level thread pre-emption is not explored.",
          "deterministic simulation: seeded schedules and restart sequences, step-count and exactly-once oracles"),
 }
 
@@ -95,7 +105,7 @@ NOT_APPLICABLE = {
  "C20": "algebraic symmetry laws over coordinates; no schedule, time or fault dimension (DESIGN.md §6)",
 }
 PENDING = {k: "check under construction (simulation layer not built yet); not claimed until it runs clean on the unchanged tree"
-           for k in ("C12",)}
+           for k in ()}
 
 
 def main():
